@@ -283,6 +283,11 @@ pub fn c05_case(rng: &mut Rng) -> CaseOut {
                     out.fail(Fail::new("invalid-match", "variable-unbound", format!("a match of {ptxt} does not bind ?{v}: {s:?}"), cj));
                     return out;
                 }
+                let a = &s[v];
+                if !a.m.is_bijection() || a.m.keys() != eg.slots(a.id) {
+                    out.fail(Fail::new("invalid-match", "ill-formed-invocation", format!("a match of {ptxt} binds ?{v} to the ill-formed invocation {a:?}"), cj));
+                    return out;
+                }
             }
             match guard(|| inst_by_lookup(&eg, &pat, s)) {
                 Ok(Ok(_)) => {}
@@ -344,7 +349,28 @@ pub fn c05_case(rng: &mut Rng) -> CaseOut {
                 me
             }
             flat(&t, &mut eqs, &mut counter, rng, 0);
-            eqs.reverse(); // root first
+            // equation order: bottom-up (as produced), top-down, or shuffled
+            match rng.below(3) {
+                0 => {}
+                1 => eqs.reverse(),
+                _ => rng.shuffle(&mut eqs),
+            }
+            // a forcing equation: an existing equation re-stated with one child variable replaced by another bound variable
+            if rng.chance(1, 2) {
+                let cands: Vec<usize> = (0..eqs.len()).filter(|i| !eqs[*i].2.is_empty()).collect();
+                let vars: Vec<String> = eqs.iter().map(|e| e.0.clone()).collect();
+                if !cands.is_empty() && vars.len() >= 2 {
+                    let (v, txt, kids) = eqs[cands[rng.below(cands.len())]].clone();
+                    let k = rng.below(kids.len());
+                    let w = vars[rng.below(vars.len())].clone();
+                    if w != kids[k] && w != v {
+                        let txt2 = txt.replacen(&format!("?{}", kids[k]), &format!("?{w}"), 1);
+                        let mut kids2 = kids.clone();
+                        kids2[k] = w;
+                        eqs.push((v, txt2, kids2));
+                    }
+                }
+            }
         } else {
             let vars = ["a", "b", "c"];
             for _ in 0..rng.range(1, 3) {
@@ -395,6 +421,12 @@ pub fn c05_case(rng: &mut Rng) -> CaseOut {
                 for x in kids.iter().chain(std::iter::once(v)) {
                     if !s.contains_key(x) {
                         out.fail(Fail::new("invalid-match", "multi-variable-unbound", format!("a match of `{mtxt}` does not bind ?{x}: {s:?}"), cj));
+                        return out;
+                    }
+                    // a bound class invocation must be well formed: its arguments are pairwise distinct slots, one per class slot
+                    let a = &s[x];
+                    if !a.m.is_bijection() || a.m.keys() != eg.slots(a.id) {
+                        out.fail(Fail::new("invalid-match", "multi-ill-formed-invocation", format!("a match of `{mtxt}` binds ?{x} to the ill-formed invocation {a:?} (class slots {:?})", eg.slots(a.id)), cj));
                         return out;
                     }
                 }
@@ -448,7 +480,15 @@ fn no_redundancy(eg: &EGraph<LSym>) -> bool {
 
 fn small_term(r: &mut Rng, names: &[Name]) -> Tm {
     let pick = |r: &mut Rng| -> Name { if names.is_empty() { 0 } else { names[r.below(names.len())] } };
-    match r.below(7) {
+    match r.below(9) {
+        7 | 8 if names.len() >= 2 => {
+            let a = pick(r);
+            let mut b = pick(r);
+            if a == b {
+                b = names[(names.iter().position(|x| *x == a).unwrap() + 1) % names.len()];
+            }
+            Tm::leaf("f", vec![a, b])
+        }
         0 => Tm::leaf("c", vec![]),
         1 => Tm::leaf("d", vec![]),
         2 if !names.is_empty() => Tm::leaf("g", vec![pick(r)]),
@@ -463,6 +503,23 @@ fn small_term(r: &mut Rng, names: &[Name]) -> Tm {
         4 if !names.is_empty() => Tm::node("u", vec![], vec![(vec![], Tm::leaf("var", vec![pick(r)]))]),
         5 => Tm::node("w", vec![], vec![(vec![], Tm::leaf("e", vec![]))]),
         _ => Tm::leaf("e", vec![]),
+    }
+}
+
+/// like PT::inst, but the k-th occurrence (k odd) of a variable bound to (f a b) is written (f b a)
+fn inst_alternating(p: &PT, rho: &BTreeMap<Name, Name>, sigma: &BTreeMap<String, Tm>, seen: &mut BTreeMap<String, usize>) -> Tm {
+    match p {
+        PT::Var(v) => {
+            let k = seen.entry(v.clone()).or_insert(0);
+            *k += 1;
+            let t = sigma[v].clone();
+            if *k % 2 == 0 && t.op == "f" && t.slots.len() == 2 {
+                Tm::leaf("f", vec![t.slots[1], t.slots[0]])
+            } else {
+                t
+            }
+        }
+        PT::Node { op, slots, kids } => Tm { op, slots: slots.iter().map(|s| rho[s]).collect(), kids: kids.iter().map(|(bs, k)| (bs.iter().map(|b| rho[b]).collect(), inst_alternating(k, rho, sigma, seen))).collect(), pay: None },
     }
 }
 
@@ -568,13 +625,15 @@ pub fn c04_case(rng: &mut Rng) -> CaseOut {
         names.extend(extra.iter().copied());
         sigma.insert(v.clone(), small_term(rng, &names));
     }
-    let inst_l = lhs.inst(&rho, &sigma);
+    // occurrences of a repeated variable bound to an f-term are written in alternating orientation when f is symmetric,
+    // so that the instance is present only up to the symmetry of the child class
+    let sym_child = rng.chance(1, 2);
+    let inst_l = if sym_child { inst_alternating(&lhs, &rho, &sigma, &mut BTreeMap::new()) } else { lhs.inst(&rho, &sigma) };
     let inst_r = rhs.inst(&rho, &sigma);
     let (ltxt, rtxt) = (lhs.text(), rhs.text());
     let mut log = vec![];
     let mut eg: EGraph<LSym> = EGraph::default();
     let mut via_union = false;
-    let mut sym_child = false;
     let res = guard(|| -> Option<AppliedId> {
         // distractors
         for _ in 0..rng.below(3) {
@@ -583,12 +642,11 @@ pub fn c04_case(rng: &mut Rng) -> CaseOut {
             eg.add_expr(to_rec::<LSym>(lang, &d));
         }
         // symmetric child classes: f(a,b) = f(b,a)
-        if rng.chance(1, 3) {
+        if sym_child {
             log.push("union (f $p0 $p1) = (f $p1 $p0)".into());
             let a = eg.add_expr(RecExpr::parse("(f $p0 $p1)").unwrap());
             let b = eg.add_expr(RecExpr::parse("(f $p1 $p0)").unwrap());
             eg.union(&a, &b);
-            sym_child = true;
         }
         // balanced prior union: the instance is inserted with a subterm u replaced by u', and u = u' is asserted
         let mut subs = vec![];
